@@ -397,6 +397,16 @@ func c11Heavy(reps int) int {
 				l2.Set(fmt.Sprintf("/page_%d_%d.jet", g, k), `{{ extends "base" }}{{ import "theme" }}`)
 			}
 		}
+		// importers of the library with a block of their own, and a plain user of the library
+		for g := 0; g < 4; g++ {
+			for k := 0; k < 3; k++ {
+				l2.Set(fmt.Sprintf("/own_%d_%d.jet", g, k), `{{ import "theme" }}{{ block b() }}OWN{{ end }}|{{ yield b() }}`)
+			}
+		}
+		l2.Set("/user.jet", `{{ import "theme" }}{{ yield b() }}`)
+		// a try that fails after rendering, and one that succeeds
+		l2.Set("/tryfail.jet", `{{ try }}PARTIAL{{ nosuchvariable }}{{ end }}`)
+		l2.Set("/tryok.jet", `<{{ try }}ok{{ end }}>`)
 		set2 := jet.NewSet(l2)
 		if _, err := set2.GetTemplate("base"); err != nil {
 			fail("base: %v", err)
@@ -436,6 +446,17 @@ func c11Heavy(reps int) int {
 						var pb bytes.Buffer
 						if err := tp.Execute(&pb, nil, nil); err != nil || pb.String() != "THEME|THEME" {
 							fail("page rendered %q (err %v), alone it renders THEME|THEME", pb.String(), err)
+						}
+					}
+					for _, e := range [][2]string{{fmt.Sprintf("own_%d_%d", g, k), "OWN|OWN"}, {"user", "THEME"}, {"tryfail", ""}, {"tryok", "<ok>"}} {
+						tx, err := set2.GetTemplate(e[0])
+						if err != nil {
+							fail("GetTemplate(%s): %v", e[0], err)
+							continue
+						}
+						var xb bytes.Buffer
+						if err := tx.Execute(&xb, nil, nil); err != nil || xb.String() != e[1] {
+							fail("%s rendered %q (err %v), alone it renders %q", e[0], xb.String(), err, e[1])
 						}
 					}
 					if tb, err := set2.GetTemplate("base"); err == nil {
